@@ -47,7 +47,10 @@ SWAP_MAP = dict(jobId="jobId", eventId="timestamp", timestamp="eventId",
                 previousEventIds="previousEventIds",
                 applicationName="jobName", jobName="workflow",
                 eventType="applicationName")
-WF = ("wf one", "wf2", "shop.checkout", "shop.refund v2")
+WF = ("wf one", "wf2", "shop.checkout", "shop.refund v2",
+      # wave 13: names holding characters that file-name patterns, shells or
+      # URLs treat specially, next to a name such a pattern would match
+      "job[12]", "job1", "what?*", "what12", "Auftr\u00e4ge #1 (50%)")
 
 
 def all_trees():
@@ -71,6 +74,11 @@ def trace_sets(tier):
             for a in names[:3] for b in second]
     out += [{"wf one": ["r[a]"], "shop.checkout": ["r[a;b]"],
              "shop.refund v2": ["r[a|b]", "r"]}]
+    out += [{"job[12]": [a], "job1": [b]}
+            for a in names[:3] for b in second]
+    out += [{"job[12]": ["r[a;b]"]}, {"what?*": ["r[a|b]"]},
+            {"what?*": ["r[a]"], "what12": ["r[a;b]"]},
+            {"Auftr\u00e4ge #1 (50%)": ["r[a]", "r[a|b]"], "job1": ["r"]}]
     # many traces per workflow (file numbering and paging beyond one digit)
     cyc = lambda n, o=0: [names[(i * 3 + o) % len(names)]  # noqa: E731
                           for i in range(n)]
